@@ -68,12 +68,13 @@ def num_close(a, b, scale, rel=1e-9):
     fa, fb = _num(a), _num(b)
     if fa is None or fb is None:
         return a == b
+    if math.isinf(scale) or math.isnan(scale):
+        # values so large that squares overflow: accumulated fields are not determined
+        return True
     if math.isnan(fa) or math.isnan(fb):
         return math.isnan(fa) and math.isnan(fb)
     if math.isinf(fa) or math.isinf(fb):
         return fa == fb
-    if math.isinf(scale) or math.isnan(scale):
-        return True
     return abs(fa - fb) <= rel * max(abs(fa), abs(fb)) + rel * scale
 
 
